@@ -120,14 +120,14 @@ def main():
                 for u in kunits:
                     if u["id"] in lost_units:
                         continue
-                    key = (u["file"], u["modfile"])
-                    if key not in attached:
-                        try:
-                            scratch.attach(*key)
-                        except core.AnchorLost as e:
-                            undecided.append({"unit": u["id"], "reason": f"lost anchor: {e}"})
-                            lost_units.add(u["id"])
-                        attached.add(key)
+                    for key in [(u["file"], u["modfile"])] + [tuple(x) for x in u.get("extra_attach", [])]:
+                        if key not in attached:
+                            try:
+                                scratch.attach(*key)
+                            except core.AnchorLost as e:
+                                undecided.append({"unit": u["id"], "reason": f"lost anchor: {e}"})
+                                lost_units.add(u["id"])
+                            attached.add(key)
                 done_slices = set()
                 for u in kunits:
                     for sl in u.get("slices", []):
